@@ -345,6 +345,24 @@ where
             .iter()
             .map(|o| Member::new(*o, gen_u(g, 16) as u16, if g.below(5) == 0 { State::Suspect } else { State::Alive }))
             .collect();
+        // a destination whose header does not fit this packet size: the send fails with an Encode error
+        // after the codec wrote what fitted; nothing may be sent and the next datagrams must be unaffected
+        let big = SId { x8: 255, x16: 65535, x32: u32::MAX, x64: u64::MAX - g.below(1000) };
+        let mut hb = vec![];
+        let mut c2 = codec.clone();
+        let _ = c2.encode_header(&Header { src: me, src_incarnation: 0, dst: big, message: Message::Announce }, &mut hb);
+        if hb.len() > mps {
+            let r0 = catch_unwind(AssertUnwindSafe(|| foca.announce(big, &mut rt).is_err()));
+            *cases += 1;
+            match r0 {
+                Err(_) => out.hit("C20:foca-panicked-with-bundled-codec", J::s(format!("{cname} mps {mps}: announce to a destination whose header does not fit"))),
+                Ok(failed) => {
+                    if !failed || rt.to_send().is_some() {
+                        out.hit("C20:header-that-does-not-fit-was-sent", J::s(format!("{cname} mps {mps} header {} bytes", hb.len())));
+                    }
+                }
+            }
+        }
         let r = catch_unwind(AssertUnwindSafe(|| {
             let _ = foca.apply_many(members.iter().cloned(), true, &mut rt);
             let _ = foca.handle_data(&ann, &mut rt);
@@ -439,7 +457,7 @@ where
 
 pub fn c20(seed: u64, budget: u64) -> FOut {
     let mut out = FOut::default();
-    out.rule = "for BincodeCodec(standard()), PostcardCodec and BincodeCodec with the configurations big-endian, legacy (fixed-int) and big-endian fixed-int over Header<SId>/Member<SId> (SId = {u8,u16,u32,u64}): random values with boundary integers (0,1,127,128,250,251,255,2^16-1,2^16,MAX-1,MAX) in every field and every Message variant; (i) encoding into an unbounded buffer must equal the Coq model's bytes; (ii) decoding those bytes followed by random trailing data must return the value and consume exactly the encoding; (iii) encoding into a Limit buffer of EVERY size 0..len: Ok iff the size suffices, never more bytes than the limit, bytes written as the model predicts; (iv) every truncation of the encoding, random byte strings and mutated encodings: the real decoder and the model must agree on error / value / bytes consumed; (v) a real Foca<SId, bundled codec> holding 2..25 members answers an Announce and gossips under 76 packet sizes from 'header barely fits' upwards: every datagram is within the limit and is header + count + exactly count decodable members + nothing else (nothing a failing encode_member wrote is left behind), Feed lists only known members other than the receiver; (vi) BincodeCodec with the configurations big-endian, fixed-int, legacy and big-endian fixed-int (no wire model): round trip with trailing data (equal value, exactly the bytes produced), every buffer size (Ok iff it suffices, nothing past the limit), truncations and mutations (no panic); everything under catch_unwind (a panic is a hit). distinct = distinct (codec, kind, encoded length) triples".into();
+    out.rule = "for BincodeCodec(standard()), PostcardCodec and BincodeCodec with the configurations big-endian, legacy (fixed-int) and big-endian fixed-int over Header<SId>/Member<SId> (SId = {u8,u16,u32,u64}): random values with boundary integers (0,1,127,128,250,251,255,2^16-1,2^16,MAX-1,MAX) in every field and every Message variant; (i) encoding into an unbounded buffer must equal the Coq model's bytes; (ii) decoding those bytes followed by random trailing data must return the value and consume exactly the encoding; (iii) encoding into a Limit buffer of EVERY size 0..len: Ok iff the size suffices, never more bytes than the limit, bytes written as the model predicts; (iv) every truncation of the encoding, random byte strings and mutated encodings: the real decoder and the model must agree on error / value / bytes consumed; (v) a real Foca<SId, bundled codec> holding 2..25 members (after a failed announce to a destination whose header does not fit the packet size, where there is one) answers an Announce and gossips under 76 packet sizes from 'header barely fits' upwards: every datagram is within the limit and is header + count + exactly count decodable members + nothing else (nothing a failing encode_member wrote is left behind), Feed lists only known members other than the receiver; (vi) BincodeCodec with the configurations big-endian, fixed-int, legacy and big-endian fixed-int (no wire model): round trip with trailing data (equal value, exactly the bytes produced), every buffer size (Ok iff it suffices, nothing past the limit), truncations and mutations (no panic); everything under catch_unwind (a panic is a hit). distinct = distinct (codec, kind, encoded length) triples".into();
     let mut g = G::new(seed ^ 0xC20);
     let mut drv = Drv::new();
     let mut cases = 0u64;
@@ -591,5 +609,5 @@ pub fn c07_serde(seed: u64, rounds: u64, out: &mut FOut) {
     }
     out.distinct.extend(sub.distinct);
     out.extra.push(("serde_codec_datagrams_checked".into(), J::n(cases)));
-    out.rule.push_str("; plus (serde codecs) a real Foca<SId, BincodeCodec / PostcardCodec> holding 2..25 members answers an Announce and gossips under 76 packet sizes from 'header barely fits' upwards: every datagram within the limit and exactly header + count + count decodable members");
+    out.rule.push_str("; plus (serde codecs) a real Foca<SId, BincodeCodec / PostcardCodec> holding 2..25 members (after a failed announce to a destination whose header does not fit the packet size, where there is one) answers an Announce and gossips under 76 packet sizes from 'header barely fits' upwards: every datagram within the limit and exactly header + count + count decodable members");
 }
